@@ -104,6 +104,7 @@ where
     type ConIter = ConIterOfIter<Iter::Item, Iter>;
 
     fn par(self) -> ParEmpty<Self::ConIter> {
-        ParEmpty::new(self)
+        // positions start over for the remaining elements in case the iterator was advanced before
+        ParEmpty::new(self.into_seq_iter().into_con_iter())
     }
 }
